@@ -196,6 +196,14 @@ func orderList(seed int64, shard, n int) []EvalCase {
 			}
 		}
 	}
+	// member access on every struct-like data name (two of them are different types with the same type name)
+	for _, base := range []string{"st", "pst", "ra", "rb", "m", "tm", "x0", "x1", "odd"} {
+		for _, mem := range stdMembers {
+			for _, d := range datas {
+				out = append(out, EvalCase{Src: base + "." + mem, Data: d})
+			}
+		}
+	}
 	n += len(out)
 	for len(out) < n {
 		src := ref.Print(NoSelfStore(cfg.Node(r, 1+r.Intn(4))))
